@@ -136,6 +136,7 @@ def check(ctx):
                 ctx.violation("M1", f"{t}|{'>'.join(f1.path(t))}", r.where, f"at {d} in regular employment the gross wage reaches {t} without passing a min(wage, ceiling) rule: {' <- '.join(f1.path(t))}; the contribution is not constant above the assessment ceiling")
             elif len(ctx.samples) < 6:
                 ctx.sample({"target": t, "date": str(d), "regular: wage enters through": f1.path(t)})
+    regime_cover(ctx, s, dates)
     from ._siblings import capped_multiplier_findings
 
     ctx.rule("S-cap", "the regular and the transition-zone copy of a contribution formula scale a rate parameter by the identical capped expression (otherwise the two regimes do not meet at the zone boundary)")
@@ -156,3 +157,106 @@ def check(ctx):
 def _impl(dag, t):
     n = dag.nodes.get(t)
     return n.rule.qual if n is not None and n.rule is not None else t
+
+
+REGIMES = ["geringfügig_beschäftigt", "in_gleitzone", "regulär_beschäftigt"]
+
+
+def regime_cover(ctx, s, dates):
+    """R-cover: the scenario analysis above binds the three regime columns; this rule discharges its premise
+    that the regimes leave no gap on the wage axis - decided on every weak ordering of the wage and the
+    threshold terms the three predicates compare it with (finite order domain, no numbers)."""
+    import ast
+
+    from staticlib.ordersem import NotExpressible, Subst, evaluate, function_as_expression, weak_orderings
+
+    ctx.rule("R-cover", "for every ordering of the gross wage relative to the regime thresholds at least one of marginal / transition-zone / regular employment holds (no wage falls between the regimes)")
+    done = {}
+    for d in dates:
+        dag = s.dag(d)
+        rules = []
+        for nme in REGIMES:
+            node = dag.nodes.get(nme)
+            if node is None or node.kind != "rule":
+                rules = None
+                break
+            rules.append(node.rule)
+        if rules is None:
+            continue  # a regime column is an input at this date: nothing to decide
+        key = tuple(r.qual for r in rules)
+        if key in done:
+            ctx.ob("R-cover", ok=done[key], distinct=(key, str(d)))
+            continue
+        exprs = {}
+        try:
+            for nme, r in zip(REGIMES, rules):
+                exprs[nme] = function_as_expression(r.node)
+        except NotExpressible as e:
+            raise AnalysisError(f"regime predicate {r.qual} is not an expression over comparisons ({e}); R-cover needs a re-read") from e
+
+        class Inline(ast.NodeTransformer):
+            def visit_Name(self, n):
+                if n.id in exprs and isinstance(n.ctx, ast.Load):
+                    return Inline().visit(ast.parse(ast.unparse(exprs[n.id]), mode="eval").body)
+                return n
+
+        syms = {}
+
+        def mapper(node):
+            if isinstance(node, ast.Name) and node.id == WAGE:
+                return "W"
+            if isinstance(node, (ast.BoolOp, ast.UnaryOp, ast.Compare, ast.IfExp)) or (isinstance(node, ast.Constant) and isinstance(node.value, bool)):
+                return None
+            if isinstance(node, (ast.Name, ast.Subscript, ast.Attribute, ast.Call, ast.BinOp, ast.Constant)):
+                if any(isinstance(x, ast.Name) and x.id == WAGE for x in ast.walk(node)):
+                    raise AnalysisError(f"regime predicate compares an expression of the wage: `{ast.unparse(node)}`; R-cover needs a re-read")
+                return syms.setdefault(ast.unparse(node), f"T{len(syms)}")
+            return None
+
+        cover = ast.BoolOp(op=ast.Or(), values=[Subst(mapper).visit(Inline().visit(ast.parse(ast.unparse(exprs[n]), mode="eval").body)) for n in REGIMES])
+        names = ["W", *syms.values()]
+        if len(names) > 5:
+            raise AnalysisError(f"regime predicates compare the wage with {len(syms)} different terms; R-cover needs a re-read")
+        # numeric order of the threshold terms where it is known from the parameters (else unconstrained)
+        vals = {}
+        params, _, _ = s.em.params(d)
+        for txt, sym in syms.items():
+            v = None
+            node = ast.parse(txt, mode="eval").body
+            if isinstance(node, ast.Name):
+                pv = s.params_only_value(dag, node.id)
+                if isinstance(pv, Conc) and isinstance(pv.v, (int, float)):
+                    v = pv.v
+            else:
+                try:
+                    v = eval(compile(ast.Expression(node), "<param path>", "eval"), {"__builtins__": {}}, {k + "_params": v_ for k, v_ in params.items()})  # noqa: S307 - constant subscript path into the parameter model
+                    if not isinstance(v, (int, float)):
+                        v = None
+                except Exception:  # noqa: BLE001
+                    v = None
+            if v is not None:
+                vals[sym] = v
+        n = 0
+        bad = None
+        try:
+            for ranks in weak_orderings(len(names)):
+                env = dict(zip(names, ranks))
+                ks = list(vals)
+                if any((vals[a] < vals[b]) != (env[a] < env[b]) or (vals[a] == vals[b]) != (env[a] == env[b]) for a in ks for b in ks):
+                    continue
+                n += 1
+                if not evaluate(cover, env) and bad is None:
+                    bad = env
+        except ValueError as e:
+            raise AnalysisError(f"regime predicates are not pure order predicates ({e}); R-cover needs a re-read") from e
+        done[key] = bad is None
+        ctx.ob("R-cover", ok=bad is None, distinct=(key, str(d)), n=max(n, 1))
+        if len(ctx.samples) < 8:
+            ctx.sample({"rule": "R-cover", "date": str(d), "terms": {v_: k for k, v_ in syms.items()}, "orderings": n, "cover": ast.unparse(cover)[:200]})
+        if bad is not None:
+            inv = {v_: k for k, v_ in syms.items()}
+            order = sorted(names, key=lambda a: bad[a])
+            desc = " ".join((("= " if i and bad[order[i]] == bad[order[i - 1]] else ("< " if i else "")) + ("wage" if a == "W" else inv[a])) for i, a in enumerate(order))
+            r = rules[2]
+            ctx.violation("R-cover", "|".join(key), r.where, f"at {d} a wage with `{desc}` is neither geringfügig_beschäftigt nor in_gleitzone nor regulär_beschäftigt: rules keyed on regulär_beschäftigt (the health / care assessment base) treat it as no employment at all - contributions drop at exactly that wage")
+    ctx.floor("R-cover", 20)
